@@ -59,15 +59,15 @@ theorem C04_gen_parse_revokeable (env : BEnv) (a : Bool) (rev delayed : Key) (de
 
 /-- **`Bolt3.classify` (the model's `handle_output` for P2WSH outputs, on which every C04 theorem about the decoder
     rests) equals the code's pipeline built from generated data**: parse with the source's templates in the source's
-    order, then apply the `handle_*_output` checks with the source's constants. -/
-theorem C04_gen_classify (env : BEnv) (keyOk : Bytes → Bool) (hk : ∀ k, keyOk (env.keyBytes k) = k.ok)
-    (hinj : ∀ a, a < env.nKeys → ∀ b, b < env.nKeys → env.keyBytes a = env.keyBytes b → a = b)
+    order, then apply the `handle_*_output` checks with the source's constants.  `parseKey` stands for
+    `PublicKey::from_slice`: on the environment's known keys it inverts the encoding (id 0 = not a curve point). -/
+theorem C04_gen_classify (env : BEnv) (parseKey : Bytes → Option Key)
+    (hk : ∀ a, a < env.nKeys → parseKey (env.keyBytes a) = if Key.ok a then some a else none)
     (s : Setup) (k : Keys) (o : TxOut Nat) (sc : Script) (hn : numsOk sc) (hkn : keysKnown env k sc)
     (hw : o.spk = .p2wsh (wshB env sc)) :
     classify (wshB env) s k o (some sc) =
-      (parseWsh s.ctype.isAnchors (scriptInstrs env sc)).bind
-        (handleParsed keyOk (env.keyBytes k.bFunding) (env.keyBytes k.cFunding) o.value) :=
-  classify_eq_parse env keyOk hk hinj s k o sc hn hkn hw
+      (parseWsh s.ctype.isAnchors (scriptInstrs env sc)).bind (handleParsed parseKey k.bFunding k.cFunding o.value) :=
+  classify_eq_parse env parseKey hk s k o sc hn hkn hw
 
 /-- The instruction iterator (rust-bitcoin `Script::instructions`, modelled) on the real opcodes of a canonical
     script — the bytes whose SHA-256 is compared with LDK's script_pubkeys on every run — yields `scriptInstrs`. -/
@@ -78,30 +78,33 @@ theorem C04_gen_instrs_canon (env : BEnv) (hk : ∀ k, (env.keyBytes k).length =
 /-- **End to end, from witness-script bytes**: iterate the instructions of the supplied bytes, run the source's
     templates in the source's order, apply the `handle_*_output` checks with the source's constants — that is the
     model's `classify` of the output. -/
-theorem C04_gen_classify_bytes (env : BEnv) (keyOk : Bytes → Bool) (hk : ∀ k, keyOk (env.keyBytes k) = k.ok)
-    (hl : ∀ k, (env.keyBytes k).length = 33)
-    (hinj : ∀ a, a < env.nKeys → ∀ b, b < env.nKeys → env.keyBytes a = env.keyBytes b → a = b) (s : Setup) (k : Keys)
+theorem C04_gen_classify_bytes (env : BEnv) (parseKey : Bytes → Option Key)
+    (hk : ∀ a, a < env.nKeys → parseKey (env.keyBytes a) = if Key.ok a then some a else none)
+    (hl : ∀ k, (env.keyBytes k).length = 33) (s : Setup) (k : Keys)
     (o : TxOut Nat) (sc : Script) (hn : numsOk sc) (hh : hashLenOk sc) (hkn : keysKnown env k sc)
     (hw : o.spk = .p2wsh (wshB env sc)) :
     classify (wshB env) s k o (some sc) =
       (parseWsh s.ctype.isAnchors (instrs (scriptBytes env sc))).bind
-        (handleParsed keyOk (env.keyBytes k.bFunding) (env.keyBytes k.cFunding) o.value) := by
+        (handleParsed parseKey k.bFunding k.cFunding o.value) := by
   rw [instrs_scriptBytes env hl sc hn hh]
-  exact classify_eq_parse env keyOk hk hinj s k o sc hn hkn hw
+  exact classify_eq_parse env parseKey hk s k o sc hn hkn hw
 
 /-! Non-vacuity: a concrete environment, the to_local script with delay 144 and a received HTLC script with
     expiry 500000 are parsed by evaluation (the generic interpreter on the generated templates). -/
 section witness
 def envW : BEnv := { nKeys := 8, keyBytes := fun k => (if k = 0 then 0 else 2) :: leBytes 32 k,
                      keyHash160 := fun k => 1000 + k, payHash160 := fun h => 77 + h }
-def keyOkW (b : Bytes) : Bool := b.head? == some 2
+/-- a key parser for `envW`: the first byte says "curve point", the rest is the id (little-endian) -/
+def parseKeyW (b : Bytes) : Option Key :=
+  match b with
+  | c :: rest => if c = 2 then some (leNat (rest.map UInt8.toNat)) else none
+  | [] => none
 
 /-- the hypotheses of `C04_gen_classify(_bytes)` hold for this environment -/
-example : (∀ k, keyOkW (envW.keyBytes k) = k.ok) ∧ (∀ k, (envW.keyBytes k).length = 33) ∧
-    (∀ a, a < envW.nKeys → ∀ b, b < envW.nKeys → envW.keyBytes a = envW.keyBytes b → a = b) := by
-  refine ⟨?_, ?_, by decide⟩
-  · intro k; by_cases h : k = 0 <;> simp [keyOkW, envW, Key.ok, h]
-  · intro k; simp [envW, leBytes_length]
+example : (∀ a, a < envW.nKeys → parseKeyW (envW.keyBytes a) = if Key.ok a then some a else none) ∧
+    (∀ k, (envW.keyBytes k).length = 33) := by
+  refine ⟨by decide, ?_⟩
+  intro k; simp [envW, leBytes_length]
 
 example : parseWsh false (scriptInstrs envW (.toLocal 1 144 2)) =
     some (.toBroadcaster (envW.keyBytes 1) 144 (envW.keyBytes 2)) := by decide
